@@ -1374,6 +1374,7 @@ module m(input clk, input d);
   always @(posedge clk) if (d) q <= 0;
   always @(posedge clk) mem[0] <= 1;
   always @(posedge clk) mem[1] <= 2;
+  always @(posedge clk) if (d) mem[0] <= 3;
   always @(posedge clk) v[3:0] <= 1;
   always @(posedge clk) v[4:3] <= 1;
   always @(posedge clk) split[3:0] <= 1;
@@ -1396,6 +1397,22 @@ module m(input a, input b, input clk);
   generate for (k = 0; k < 4; k = k + 1) begin : gl
     always @(posedge clk) g[k] <= a;
   end endgenerate
+endmodule`},
+		{name: "multi_driver_array_words", exact: true, want: []string{"multi-driver:m:same", "multi-driver:m:dyn"}, src: `
+module m(input clk, input [1:0] a, input [0:0] k);
+  wire [1:0] TAG [1:0]; reg [7:0] ptr [0:1]; reg [7:0] same [0:1]; reg [7:0] dyn [0:1]; wire [1:0] ok2 [0:1];
+  assign TAG[0] = a;
+  assign TAG[1] = ~a;
+  assign ok2[0][0] = a[0];
+  assign ok2[1][1:0] = a;
+  genvar i;
+  generate for (i = 0; i < 2; i = i + 1) begin
+    always @(posedge clk) ptr[i] <= a;
+  end endgenerate
+  always @(posedge clk) same[1] <= 1;
+  always @(posedge clk) same[1][3:0] <= 2;
+  always @(posedge clk) dyn[0] <= 1;
+  always @(posedge clk) dyn[k] <= 2;
 endmodule`},
 		{name: "duplicate_decl", exact: true, want: []string{"duplicate-decl:m:x", "duplicate-decl:m:y", "duplicate-decl:m:q", "duplicate-decl:m:P", "duplicate-decl:m:d"}, src: `
 module m(input clk, input d, output reg q);
